@@ -256,6 +256,7 @@ def run(ctx):
     rep.floor('Q7', 3)
     rep.floor('Q8', 3)
     rep.floor('Q10', 6)
+    rep.floor('Q11', 6)
 
 
 # ---------------------------------------------------------------- slist
@@ -532,6 +533,7 @@ def queue(ctx):
     q6(ctx, fns, m, numidx)
     q8(ctx, fns, m)
     q10(ctx, fns, lookup_in([m, ctx.module('hdr_unit')]))
+    q11(ctx, fns, m, lookup_in([m, ctx.module('hdr_unit')]))
     import sortguard
     for n_, lim, what in (('a_que_push_sort', 1, 'after the count was incremented one element is already enqueued and must be compared'),
                           ('a_que_sort_fore', 1, 'two elements may be out of order'), ('a_que_sort_back', 1, 'two elements may be out of order')):
@@ -1093,3 +1095,246 @@ def q10(ctx, fns, lk):
                 probs.append('ring %s at %s: no path acts on the node whose position equals idx' % (r, at))
         (rep.bad if probs else rep.ok)('Q10', name, '; '.join(probs[:2]) or '%d cases: the new node is linked directly before / the node is unlinked at the position found' % n,
                                        **({'key': '%s: action at the position' % name, 'loc': fn.loc(header.term)} if probs else {}))
+
+
+# ---------------------------------------------------------------- Q11: the comparison scans and the re-linking of the sorted operations
+class SortDom(QDom):
+    """the comparison callback is an unknown pure function of its two operands: its result is a symbol named after them, the
+    interpreter forks on its sign"""
+    fork_in_loops = True   # the walks are over explicit rings (they end at the sentinel); the forks are the comparison outcomes
+
+    def indirect_call(self, callee, args, ins, interp, st):
+        def nm(a):
+            return '%s+%s' % (a.base, a.off) if isinstance(a, Ptr) else str(a)
+        if len(args) != 2:
+            return NotImplemented
+        return sp.Symbol('cmp[%s|%s]' % (nm(args[0]), nm(args[1])), integer=True)
+
+
+def _canon_cmp(ops, rel):
+    """one spelling per comparison: operands in lexicographic order (cmp(b, a) >= 0 is cmp(a, b) <= 0 for a consistent callback);
+    the outcome is 'stop' (<= 0 or < 0: where equal elements go is not fixed by the property) or 'go' (> 0 or >= 0)"""
+    a, b = ops.split('|')
+    if a > b:
+        a, b = b, a
+        rel = {'<=': '>=', '>=': '<=', '<': '>', '>': '<'}.get(rel, rel)
+    return ('%s|%s' % (a, b), rel)
+
+
+def _cmp_trace(pc):
+    """[(operands, relation to 0)] in path order, canonical spelling"""
+    out = []
+    for c in pc:
+        if not isinstance(c, alg.Cond):
+            continue
+        a, b = sp.sympify(c.a), sp.sympify(c.b)
+        if a.is_Symbol and str(a).startswith('cmp[') and b == 0:
+            out.append(_canon_cmp(str(a)[4:-1], c.rel()))
+    return out
+
+
+def _same_scan(tr, ref):
+    """trace equals the reference scan up to the treatment of equal elements"""
+    if len(tr) != len(ref):
+        return False
+    for (o1, r1), (o2, r2) in zip(tr, ref):
+        if o1 != o2:
+            return False
+        lo = {'<=': '<', '<': '<', '>': '>', '>=': '>'}
+        if lo.get(r1) is None or lo.get(r1) != lo.get(r2):
+            return False
+    return True
+
+
+def q11(ctx, fns, m, lk):
+    """sort_fore moves the first element behind all elements that compare smaller (scan forward from the second, stop at the first
+    element e with cmp(x, e) <= 0), sort_back moves the last element before all that compare greater (scan backward, stop at the
+    first e with cmp(e, x) <= 0), push_sort links the fresh node behind the last element e with cmp(e, key) <= 0 (scan backward).
+    Part A: whole function on explicit rings of 0..4 elements, every outcome of the comparisons (the callback result is a symbol
+    per operand pair, the interpreter forks on its sign): the comparisons made, their operands and order, the stop rule and the
+    resulting ring are those of the reference.  Part B: one scan iteration and the re-linking behind it at an arbitrary position of
+    a ring of any length (summary segments around the materialised neighbours)."""
+    import dwarf
+    rep = ctx.rep
+    SZ = 16
+    try:
+        fl = dwarf.MD(m).flatten('a_que')
+        numoff = [o for o, nm in fl.items() if nm == 'num_'][0]
+    except Exception as e:
+        rep.unk('Q11', 'a_que', 'layout of a_que not readable: %s' % e)
+        return
+
+    def heap_of(r, count):
+        h = Heap()
+        names = ['ctx'] + r
+        h.ring(names)
+        h.node('N')
+        st = h.state()
+        st.store[('ctx', numoff)] = (sp.Integer(count), llir.I(64))
+        st.offs[('ctx', numoff)] = numoff
+        return h, names, st
+    P = lambda n: '%s+%d' % (n, SZ)
+
+    def reference(name, r):
+        """-> [(comparison trace, resulting ring, returned pointer)] for every stop position"""
+        out = []
+        L = len(r)
+        if name == 'a_que_sort_fore':
+            if L < 2:
+                return [([], ['ctx'] + r, None)]
+            x = r[0]
+            for k in range(1, L + 1):
+                tr = [('%s|%s' % (P(x), P(r[j])), '>0') for j in range(1, k)] + ([('%s|%s' % (P(x), P(r[k])), '<=0')] if k < L else [])
+                out.append((tr, ['ctx'] + r[1:k] + [x] + r[k:], None))
+        elif name == 'a_que_sort_back':
+            if L < 2:
+                return [([], ['ctx'] + r, None)]
+            x = r[-1]
+            for k in range(L - 2, -2, -1):
+                tr = [('%s|%s' % (P(r[j]), P(x)), '>0') for j in range(L - 2, k, -1)] + ([('%s|%s' % (P(r[k]), P(x)), '<=0')] if k >= 0 else [])
+                out.append((tr, ['ctx'] + r[:k + 1] + [x] + r[k + 1:-1], None))
+        else:
+            for k in range(L - 1, -2, -1):
+                tr = [('%s|key+0' % P(r[j]), '>0') for j in range(L - 1, k, -1)] + ([('%s|key+0' % P(r[k]), '<=0')] if k >= 0 else [])
+                out.append((tr, ['ctx'] + r[:k + 1] + ['N'] + r[k + 1:], Ptr('N', SZ)))
+        return out
+    rings = [[], ['A1'], ['A1', 'A2'], ['A1', 'A2', 'A3'], ['A1', 'A2', 'A3', 'A4']]
+    for name in ('a_que_sort_fore', 'a_que_sort_back', 'a_que_push_sort'):
+        fn = fns.get(name)
+        if fn is None:
+            rep.unk('Q11', name, 'anchor vanished')
+            continue
+        probs, n = [], 0
+        for r in rings:
+            try:
+                h, names, st = heap_of(r, len(r) + (1 if name == 'a_que_push_sort' else 0))
+                dom = SortDom()
+                it = symx.Interp(dom, lk, inline=lambda n_: n_ not in ('a_que_new_', 'a_que_die_'))
+                args = [Ptr('ctx', 0)] + ([Ptr('key', 0)] if name == 'a_que_push_sort' else []) + [Ptr('cmpfn', 0)]
+                lv = it.run(fn, args, st)
+                ref = reference(name, r)
+                seen = set()
+                for lf in lv:
+                    n += 1
+                    tr = _cmp_trace(lf.pc)
+                    match = [k for k, (t, w, rv) in enumerate(ref) if _same_scan(tr, [_canon_cmp(o, q[:-1]) for o, q in t])]
+                    if not match:
+                        probs.append('ring %s: comparisons %s are not a scan of the reference (expected one of %s)' % (r, tr, [t for t, _, _ in ref][:3]))
+                        continue
+                    t, want, rv = ref[match[0]]
+                    seen.add(match[0])
+                    all_names = names + (['N'] if name == 'a_que_push_sort' else [])
+                    pr = check_ring(lf, h, 'ctx', want, orig_of([names]))
+                    if rv is not None and not (isinstance(lf.ret, Ptr) and lf.ret == rv):
+                        pr.append('returns %s, expected %s' % (lf.ret, rv))
+                    probs += ['ring %s after %s: %s' % (r, tr or 'no comparison', x) for x in pr]
+                if len(seen) != len(ref):
+                    probs.append('ring %s: %d of the %d outcomes of the reference scan are reachable' % (r, len(seen), len(ref)))
+            except Unsupported as e:
+                probs.append('ring %s: outside the domain: %s' % (r, e))
+        (rep.bad if probs else rep.ok)('Q11', name + '[rings of 0..4]', '; '.join(probs[:2])[:700] or '%d outcomes: operands and order of every comparison, the stop rule (first result <= 0) and the resulting ring equal the reference scan' % n,
+                                       **({'key': '%s: scan and re-link' % name, 'loc': fn.loc(fn.entry.instrs[0])} if probs else {'sample': {'fn': name, 'outcomes': n}}))
+
+    # ---- Part B: one scan iteration + the re-linking behind it at an arbitrary position of a ring of any length
+    def step_cases(name):
+        """(ring, cursor node, expected operands, ring when the comparison says stop, then either the next cursor node or the ring
+        after the exhausted scan when it says continue)"""
+        if name == 'a_que_sort_fore':
+            x = 'X'
+            return [
+                (['X', 'F', 'SA', 'P', 'C', 'B', 'SB'], 'C', '%s|%s' % (P(x), P('C')), ['ctx', 'F', 'SA', 'P', 'X', 'C', 'B', 'SB'], 'B', None),
+                (['X', 'F', 'SA', 'P', 'C'], 'C', '%s|%s' % (P(x), P('C')), ['ctx', 'F', 'SA', 'P', 'X', 'C'], None, ['ctx', 'F', 'SA', 'P', 'C', 'X']),
+                (['X', 'C', 'B', 'SB'], 'C', '%s|%s' % (P(x), P('C')), ['ctx', 'X', 'C', 'B', 'SB'], 'B', None),
+            ]
+        if name == 'a_que_sort_back':
+            x = 'X'
+            return [
+                (['SB', 'B', 'C', 'P', 'SA', 'F', 'X'], 'C', '%s|%s' % (P('C'), P(x)), ['ctx', 'SB', 'B', 'C', 'X', 'P', 'SA', 'F'], 'B', None),
+                (['C', 'P', 'SA', 'F', 'X'], 'C', '%s|%s' % (P('C'), P(x)), ['ctx', 'C', 'X', 'P', 'SA', 'F'], None, ['ctx', 'X', 'C', 'P', 'SA', 'F']),
+                (['SB', 'B', 'C', 'X'], 'C', '%s|%s' % (P('C'), P(x)), ['ctx', 'SB', 'B', 'C', 'X'], 'B', None),
+            ]
+        return [
+            (['SB', 'B', 'C', 'P', 'SA', 'F'], 'C', '%s|key+0' % P('C'), ['ctx', 'SB', 'B', 'C', 'N', 'P', 'SA', 'F'], 'B', None),
+            (['C', 'P', 'SA', 'F'], 'C', '%s|key+0' % P('C'), ['ctx', 'C', 'N', 'P', 'SA', 'F'], None, ['ctx', 'N', 'C', 'P', 'SA', 'F']),
+            (['SB', 'B', 'C'], 'C', '%s|key+0' % P('C'), ['ctx', 'SB', 'B', 'C', 'N'], 'B', None),
+        ]
+    for name in ('a_que_sort_fore', 'a_que_sort_back', 'a_que_push_sort'):
+        fn = fns.get(name)
+        if fn is None:
+            continue
+        loops = [l for l in fn.loops()]
+        if len(loops) != 1:
+            rep.unk('Q11', name + '[any length]', 'expected one scan loop, found %d' % len(loops))
+            continue
+        header = loops[0][0]
+        phis = [i for i in header.instrs if i.op == 'phi' and i.ty.is_ptr]
+        if len(phis) != 1:
+            rep.unk('Q11', name + '[any length]', 'the scan does not carry exactly one cursor')
+            continue
+        cur = phis[0]
+        probs, n = [], 0
+        for r, at, operands, want_stop, nxt, want_end in step_cases(name):
+            try:
+                h, names, st = heap_of(r, 5)
+                dom = SortDom()
+                it = symx.Interp(dom, lk, inline=lambda n_: n_ not in ('a_que_new_', 'a_que_die_'))
+                args = [Ptr('ctx', 0)] + ([Ptr('key', 0)] if name == 'a_que_push_sort' else []) + [Ptr('cmpfn', 0)]
+                ro0, rets0 = it.run_region(fn, args, fn.entry, {}, [header], st=st)
+                ro0 = [x_ for x_ in ro0 if x_[1] is header]
+                if len(ro0) != 1:
+                    raise Unsupported('%d paths reach the scan' % len(ro0))
+                s0 = ro0[0][0]
+                env0 = dict(s0.env)
+                env0[cur.res] = Ptr(at, 0)
+                s1 = s0.clone()
+                s1.pc, s1.pc_raw = [], []
+                ro, rets = it.run_region(fn, args, header, env0, [header], st=s1)
+                outcomes = []
+                for s_, blk, prev in ro:
+                    outcomes.append(('back', s_, it.val(cur.ops[cur.x['labels'].index(prev.name)], s_, fn)))
+                for s_, rv in rets:
+                    outcomes.append(('ret', s_, rv))
+                seen = set()
+                for kind, s_, v in outcomes:
+                    n += 1
+                    tr = _cmp_trace(s_.pc)
+                    want_ops, stop_rel = _canon_cmp(operands, '<=')
+                    if len(tr) != 1 or tr[0][0] != want_ops:
+                        probs.append('ring %s at %s: comparisons %s, expected one comparison of %s' % (r, at, tr, operands))
+                        continue
+                    lf = symx.Leaf(s_.pc, v if kind == 'ret' else None, s_.store, {}, s_.calls, s_.trace, s_.pc_raw, s_.offs, None, s_.reads)
+                    touched = shape.touched_summary(lf, h)
+                    if touched:
+                        probs.append('ring %s at %s: reads inside the unexamined part of the ring (%s)' % (r, at, touched))
+                    outcome = 'stop' if tr[0][1] in (stop_rel, stop_rel[0]) else 'go' if tr[0][1] in ({'<=': '>', '>=': '<'}[stop_rel], {'<=': '>=', '>=': '<='}[stop_rel]) else None
+                    if outcome == 'stop':
+                        seen.add('stop')
+                        if kind != 'ret':
+                            probs.append('ring %s at %s: the scan goes on although the comparison is <= 0' % (r, at))
+                            continue
+                        pr = check_ring(lf, h, 'ctx', want_stop, orig_of([names]))
+                    elif outcome == 'go':
+                        seen.add('go')
+                        if nxt is not None:
+                            if kind != 'back':
+                                probs.append('ring %s at %s: the scan stops although the comparison is > 0 and %s follows' % (r, at, nxt))
+                                continue
+                            pr = [] if (isinstance(v, Ptr) and v == Ptr(nxt, 0)) else ['the cursor moves to %s, expected %s' % (v, nxt)]
+                            pr += check_ring(lf, h, 'ctx', names, orig_of([names]))
+                        else:
+                            if kind != 'ret':
+                                probs.append('ring %s at %s: the scan does not end at the sentinel' % (r, at))
+                                continue
+                            pr = check_ring(lf, h, 'ctx', want_end, orig_of([names]))
+                    else:
+                        pr = ['the comparison result is tested as %s 0, expected <= 0' % tr[0][1]]
+                    if kind == 'ret' and name == 'a_que_push_sort' and not (isinstance(v, Ptr) and v == Ptr('N', SZ)):
+                        pr.append('returns %s, expected the payload of the new node' % (v,))
+                    probs += ['ring %s at %s, comparison %s: %s' % (r, at, tr[0][1], x_) for x_ in pr]
+                if seen != {'stop', 'go'}:
+                    probs.append('ring %s at %s: outcomes %s of the comparison are reachable, expected both' % (r, at, sorted(seen)))
+            except Unsupported as e:
+                probs.append('ring %s at %s: outside the domain: %s' % (r, at, e))
+        (rep.bad if probs else rep.ok)('Q11', name + '[any length]', '; '.join(probs[:2])[:700] or '%d outcomes: at an arbitrary position of a ring with unexamined segments the iteration compares the documented operands once, '
+                                       'stops on <= 0, otherwise moves one node on; the element is re-linked directly at the stop position (or at the far end when the scan is exhausted) and nothing else is read or written' % n,
+                                       **({'key': '%s: scan step' % name, 'loc': fn.loc(header.term)} if probs else {'sample': {'fn': name, 'outcomes': n}}))
